@@ -26,8 +26,10 @@ func init() {
 			"(ApplyReconciler at every record; ReconcileFile on disk for a sample) returns / writes the identical bytes. blank-only texts must yield no blocks. " +
 			"non-trivial & distinct = accepted texts with >=2 blocks and >=2 of {CRLF, whitespace-only line, no final newline, non-UTF-8 byte, leading blank lines}, by hash",
 		Assumptions: []string{"block membership is judged with the harness's own line splitter (blank = only spaces/tabs), not with klog's"},
-		Planned:     func(tier string, seed uint64) int64 { return map[string]int64{"quick": 40000, "thorough": 2000000}[tier] },
-		Run:         runC08,
+		Planned: func(tier string, seed uint64) int64 {
+			return map[string]int64{"quick": 40000, "thorough": 2000000}[tier]
+		},
+		Run: runC08,
 	})
 }
 
